@@ -1,0 +1,101 @@
+// Copyright 2023 Versity Software
+// This file is licensed under the Apache License, Version 2.0
+// (the "License"); you may not use this file except in compliance
+// with the License.  You may obtain a copy of the License at
+//
+//   http://www.apache.org/licenses/LICENSE-2.0
+//
+// Unless required by applicable law or agreed to in writing,
+// software distributed under the License is distributed on an
+// "AS IS" BASIS, WITHOUT WARRANTIES OR CONDITIONS OF ANY
+// KIND, either express or implied.  See the License for the
+// specific language governing permissions and limitations
+// under the License.
+
+package utils
+
+import (
+	"net/url"
+	"strings"
+
+	"github.com/gofiber/fiber/v2"
+)
+
+// The backends build file system paths by joining client supplied names
+// (bucket, key, copy source, versionId, uploadId). A name is confined when
+// joining it cannot land anywhere but below the directory it is joined to:
+// every "/"-separated segment is a plain name.
+
+// reservedDir is the gateway's internal directory inside a bucket.
+const reservedDir = ".sgwtmp"
+
+// dotSegment reports whether s is a segment that a file system resolves
+// instead of storing: ".", "..", or anything containing a NUL byte.
+func dotSegment(s string) bool {
+	return s == "." || s == ".." || strings.IndexByte(s, 0) >= 0
+}
+
+// confinedName reports whether every segment of name is a plain name; an
+// empty segment is tolerated only as one trailing "/".
+func confinedName(name string) bool {
+	segs := strings.Split(name, "/")
+	for i, seg := range segs {
+		if dotSegment(seg) || (seg == "" && i != len(segs)-1) {
+			return false
+		}
+	}
+	return true
+}
+
+// ConfinedKey reports whether an object key stays inside its bucket and
+// outside the bucket's internal directory.
+func ConfinedKey(key string) bool {
+	return key != "" && confinedName(key) && strings.Split(key, "/")[0] != reservedDir
+}
+
+// ConfinedPath accepts "/", "/bucket", "/bucket/" and "/bucket/key".
+func ConfinedPath(path string) bool {
+	p := strings.TrimPrefix(path, "/")
+	if p == "" {
+		return true
+	}
+	bucket, key, hasKey := strings.Cut(p, "/")
+	if dotSegment(bucket) || bucket == "" || bucket == reservedDir {
+		return false
+	}
+	return !hasKey || key == "" || ConfinedKey(key)
+}
+
+// ConfinedID accepts an identifier (versionId, uploadId, bucket name given as
+// a parameter) that is absent or a single plain name.
+func ConfinedID(id string) bool {
+	return !dotSegment(id) && !strings.ContainsAny(id, "/\\")
+}
+
+// ConfinedRequest checks the decoded path and every parameter of the request
+// that a backend joins into a path.
+func ConfinedRequest(ctx *fiber.Ctx, decodedPath string) bool {
+	if !ConfinedPath(decodedPath) {
+		return false
+	}
+	for _, k := range []string{"versionId", "uploadId", "bucket"} {
+		if !ConfinedID(ctx.Query(k)) {
+			return false
+		}
+	}
+	cs := ctx.Get("X-Amz-Copy-Source")
+	if cs == "" {
+		return true
+	}
+	cs, err := url.QueryUnescape(cs)
+	if err != nil {
+		return false
+	}
+	if i := strings.LastIndex(cs, "?versionId="); i >= 0 {
+		if !ConfinedID(cs[i+len("?versionId="):]) {
+			return false
+		}
+		cs = cs[:i]
+	}
+	return ConfinedPath("/" + strings.TrimPrefix(cs, "/"))
+}
